@@ -100,13 +100,8 @@ func Configs(thorough bool) []Config {
 		}
 	}
 	for _, sc := range []string{"two-ns", "same-ns"} {
-		add(sc, 1, 3, false)
-		add(sc, 0, 2, false)
-	}
-	if thorough {
-		for _, sc := range []string{"two-ns", "same-ns"} {
-			add(sc, 0, 2, true)
-		}
+		add(sc, 1, 3, true)
+		add(sc, 0, 2, true)
 	}
 	for i := range out {
 		c := &out[i]
